@@ -470,9 +470,21 @@ func checkClipEndpoints(ctx *Ctx, r *Report) {
 		r.undecided("W6", "Box2.lineIntersect", fn.Pos(), "evaluation budget exceeded")
 		return
 	}
-	// the candidate points: what is appended to a slice of points
-	var cand []*Term // X, Y of each appended point
+	// the candidate points: what is handed to Snap (the point computed from the parameter), or,
+	// without a snap, what is appended to a slice of points
+	var cand []*Term // X, Y of each candidate
+	for _, e := range eventsOf(ev, ".Snap") {
+		for _, a := range e.Args {
+			if pt := pointTerms(a, 2); pt != nil {
+				cand = append(cand, pt...)
+				break
+			}
+		}
+	}
 	for _, e := range eventsOf(ev, "append") {
+		if len(cand) > 0 {
+			break
+		}
 		for _, v := range appendedVals(e) {
 			var xy []*Term
 			switch x := v.(type) {
@@ -495,7 +507,7 @@ func checkClipEndpoints(ctx *Ctx, r *Report) {
 		}
 	}
 	if len(cand) < 2 {
-		r.undecided("W6", "Box2.lineIntersect", fn.Pos(), "no candidate point of the form P(t) found among the appended values")
+		r.undecided("W6", "Box2.lineIntersect", fn.Pos(), "no candidate point of the form P(t) found (neither an argument of Snap nor an appended value)")
 		return
 	}
 	for i, comp := range []string{"X", "Y"} {
